@@ -11,7 +11,7 @@ import (
 func init() {
 	register(&Rule{
 		Name: "POOLESCAPE",
-		Doc: "in every function that both obtains an object from a sync.Pool (directly or through a discovered getter wrapper) and returns it to the pool (Put or a discovered putter wrapper): no value derived from the object (field, *p, re-slice, RawBuf()) is returned, stored into caller-visible memory or a global, " +
+		Doc: "in every function that both obtains an object from a sync.Pool (directly or through a discovered getter wrapper) and returns it to the pool (Put or a discovered putter wrapper): no value derived from the object (field, *p, re-slice, RawBuf(), append with a derived first argument) is returned, stored into caller-visible memory or a global, " +
 			"and no use of the object or a derived value is reachable after the Put — pooled buffers are never handed out, retained or used after being recycled",
 		Configs:  "NP",
 		Floor:    map[string]int{"N": 12, "P": 10},
@@ -258,6 +258,11 @@ func runPoolEscape(rc *RuleCtx) {
 					case *ssa.Extract:
 						nv = u
 					case *ssa.Call:
+						// append(derived, …) may return its first argument's array (always, when the capacity suffices:
+						// `append((*buf)[:0], *buf...)` is the pooled array itself)
+						if bi, ok := u.Call.Value.(*ssa.Builtin); ok && bi.Name() == "append" && len(u.Call.Args) > 0 && u.Call.Args[0] == v {
+							nv = u
+						}
 						if cal := u.Call.StaticCallee(); cal != nil {
 							if len(u.Call.Args) > 0 && u.Call.Args[0] == v && (cal.Name() == "RawBuf" || cal.Name() == "Bytes") {
 								nv = u
